@@ -273,7 +273,8 @@ CLAIMED = {
               "execution (all 256 programs, versions, procedures, credential/verifier lengths incl. unpadded ones, both "
               "transports and IP versions, IPv6 text corner cases) and by evaluating the extracted monitor on the "
               "implementation's replies. "
-              "Frame level (Properties/C16frame.v): every emitted frame satisfies ok_C16_udp / ok_C16_tcp (first data segment; state and history level) under the explicit hypothesis rpc_ident_ok (in-scope, not-shadowed calls are identified), which C10's product theorem discharges on the current table (recipe C16_ident_from_C10); unconditional for identified frames."),
+              "Frame level (Properties/C16frame.v): every emitted frame satisfies ok_C16_udp / ok_C16_tcp (first data segment; state and history level) under the explicit hypothesis rpc_ident_ok (in-scope, not-shadowed calls are identified), which C10's product theorem discharges on the current table (recipe C16_ident_from_C10); unconditional for identified frames. "
+              "On the current implementation without identification hypothesis (Properties/Current.v): C16_current_ident (rpc_ident_ok the_env, from C10's theorem and a proof about the reference automaton that in-scope, not-shadowed calls are outside C10's class and complete the RPC signature), C16_current_frame_udp / _tcp_first / _tcp_first_state for every frame, and exactness of the class: on in-scope calls rpc_shadowed holds iff the call is not identified (C16_class_exact)."),
         design="DESIGN.md section 5, C16",
         note=("Trusted: Coq kernel/vm_compute, extraction + OCaml driver, harness; correspondence is testing. Identification "
               "is a hypothesis of the theorems: in-scope calls that the compiled matcher does not identify (first byte "
@@ -331,7 +332,8 @@ CLAIMED = {
               "ok_C14_udp. Tied to /repo by differential execution (ids with every high byte, flag grid, 0..40 questions, "
               "label layouts, address/port grid, non-IN/A at every position, all truncations, records in other sections, "
               "pointers, polyglots) and by evaluating the extracted monitor and an independent Python DNS reader on the "
-              "implementation's replies."),
+              "implementation's replies. "
+              "Against the published list (Properties/Current.v): C14_current_frame_udp_ref -- for every frame on the current implementation the monitor ok_C14_udp_ref, which reads 'no signature completed' on the reference signature automaton instead of the compiled table, holds; the two monitors coincide outside C10's refined class (C14_ref_monitor_is_table_monitor), and ordinary IN/A queries -- also those whose id starts like another signature -- are outside it."),
         design="DESIGN.md sections 5 (C14) and 10.7",
         note=("Trusted: Coq kernel/vm_compute, extraction + OCaml driver, harness incl. its Python oracle; correspondence is "
               "testing; pnet accessor semantics modelled. 'Not itself completing another protocol's signature' is the "
@@ -356,7 +358,8 @@ CLAIMED = {
               "classes x methods, attribute lists of all shapes, malformed TLVs, length lies, truncations, ports incl. "
               "0 / 65535 wrap, both transports and IP versions) and by the extracted monitors and an independent Python "
               "STUN reader on the implementation's replies. "
-              "Frame level for TCP as well (Properties/C15frame.v): the first data segment of a flow satisfies ok_C15_tcp incl. the port clause, under an explicit identification hypothesis (stun_ident_ok) that property C10's theorem discharges; no other handler can emit a STUN response to a STUN message (C15_other_handlers_no_stun_response)."),
+              "Frame level for TCP as well (Properties/C15frame.v): the first data segment of a flow satisfies ok_C15_tcp incl. the port clause, under an explicit identification hypothesis (stun_ident_ok) that property C10's theorem discharges; no other handler can emit a STUN response to a STUN message (C15_other_handlers_no_stun_response). "
+              "On the current implementation without any identification hypothesis (Properties/Current.v): C15_current_ident discharges stun_ident_ok through C10's product theorem for the magic-cookie layout and through a second proved-sound checker run directly on the dumped table for the two end-anchored layouts; C15_current_frame_tcp_first / _state and C15_current_frame_udp (frames of at most 4096 octets, which discharges dns_quiet_at) hold for every frame; the class predicate is exact: on published requests, stun_shadowed holds iff the payload is not identified (C15_class_*_exact)."),
         design="DESIGN.md sections 5 (C15) and 10.7",
         note=("Trusted: Coq kernel/vm_compute, extraction + OCaml driver, harness incl. its Python oracle; correspondence is "
               "testing. Identification is a hypothesis of the theorems: published binding requests that the compiled "
@@ -389,7 +392,8 @@ CLAIMED = {
               "Lifted through proto::repl (UDP and first TCP segment, identification as hypothesis). Tied to /repo by "
               "differential execution (ids, flags, dialect lists, blob lengths 0..512, all commands, reply flags, "
               "truncations, NetBIOS header bytes; both transports and IP versions) and by the extracted monitors and an "
-              "independent Python reader (incl. DER length of the blob present) on the implementation's replies."),
+              "independent Python reader (incl. DER length of the blob present) on the implementation's replies. "
+              "Frame level on the current implementation (Properties/Current.v): a classified request has the NetBIOS/SMB head 00 00 a b ff|fe 'S' 'M' 'B', lies outside C10's class and is identified as SMB1/SMB2 (C17_classified_head, C17_classified_identified); C17_frame_udp, C17_frame_tcp_first(_state) -- for every frame, whatever reply() emits satisfies ok_C17_udp / ok_C17_tcp -- with no identification hypothesis."),
         design="DESIGN.md sections 5 (C17) and 10.7",
         note=("Trusted: Coq kernel/vm_compute, extraction + OCaml driver, harness incl. its Python oracle, data translator "
               "(the two security blobs; blob_ok -- octets, shorter than 65000 bytes -- is re-decided per run); correspondence "
@@ -400,7 +404,8 @@ CLAIMED = {
               "are unconstrained. Observations outside the text: SMB2 picks the LOWEST offered revision; a negotiate "
               "offering only 0x0311 gets NegotiateContextCount 1 with offset 0; status 0 instead of MORE_PROCESSING_REQUIRED. "
               "Fixed findings: duplicate dialects / bytes after the dialect list (9bdd5f3), empty security blob never "
-              "answered (5dca3e9)."),
+              "answered (5dca3e9). "
+              "(The 'proto level only' remark above is superseded by the frame-level theorems of Properties/Current.v.)"),
         technique="Coq theorems (reference codec round trips, per-field dissector lemmas composed into parse theorems, reply decode by an independent reader, silence clauses over finite command domains) + extracted monitors and Python oracle on implementation output + model/implementation correspondence"),
 }
 
